@@ -23,10 +23,21 @@ Contents
 * §2 `Upd D s s'`: `s'` has the geometry of `s` and differs from it only in rows `y` with `D y`;
   one lemma per screen operation (scroll, lineDown/lineUp, erase, dch, put under both policies)
 * §3 terminal level: every token updates the active screen only inside the announced damage
-* §4 property theorems `changes_announced`, `switch_announces_everything`, `shadow_sync`,
-  `shadow_sync_run`, `shadow_sync_run_blank`
-* §5 notifications: `cursor_last`, `style_last`, `view_last_*`, `no_scrollLines_emitted_partial`
-* §6 non-vacuity examples
+  (`StepU`, `stepU_apply`); DECSET / DECRST change no cell, only 1049 changes the active buffer
+* §4 property theorems `changes_announced`, `switch_only_1049`, `switch_announces_everything`,
+  `shadow_sync`, `shadow_sync_run`, `shadow_sync_every_step`, `shadow_sync_run_blank`,
+  `shadow_sync_stream`, `shadow_sync_stream_blank`
+* §5 notifications: `cursor_last`, `style_last`, `view_last_flag/int/str`,
+  `notifications_last_stream`, `resize_last`, and `no_scrollLines_emitted_partial` (the
+  ScrollLines clause is NOT established: known finding)
+* §6 non-vacuity examples, and an example showing that `InvAlong` cannot be dropped under the
+  span policy with a width-3 character
+
+Which invariant along a run: `shadow_sync_run` takes `Scr.inv` of both buffers in every state
+in which a token is applied as a hypothesis (`InvAlong`); Props/C02 proves it for all reachable
+states (widths ≤ 2 under the span policy). For the grid policy no such hypothesis is needed
+(`shadow_sync_run_blank`): there only the shape of the grid matters and it is proved here to be
+preserved by every token.
 -/
 namespace TM.C10
 open TM
@@ -575,13 +586,13 @@ theorem upd_pre (s : Scr) (w : Nat) :
   · exact Upd.refl _ _
 
 theorem putRowOf_length (pol : WidePolicy) (s : Scr) (text : Bytes) (w : Nat) (hw : 1 ≤ w)
-    (hwf : rowWF (s.row s.cy) = true) :
+    (hwf : pol = .keep → rowWF (s.row s.cy) = true) :
     (putRowOf pol s text w).length = (s.row s.cy).length := by
   unfold putRowOf
   split
   · next hk =>
-    simp only [Bool.and_eq_true] at hk
-    exact putKeep_length _ _ _ _ _ hwf hk.1 hw
+    simp only [Bool.and_eq_true, beq_iff_eq] at hk
+    exact putKeep_length _ _ _ _ _ (hwf hk.2) hk.1 hw
   · exact put_length ..
 
 theorem finish_fields (s1 : Scr) (x : Nat) :
@@ -614,21 +625,22 @@ theorem upd_finish (s1 : Scr) (x : Nat) :
 def putRows (s : Scr) (y : Nat) : Prop :=
   (s.cy ≤ y ∧ y < s.cy + 2) ∨ (s.wrap = true ∧ s.top ≤ y ∧ y ≤ s.bot)
 
-/-- **text, every branch of `Scr.put`, both policies.** On a screen whose rows are well formed
-    (needed only for the span policy on a continuation cell) the write touches only `putRows`
-    and keeps size and shape. -/
-theorem upd_put (pol : WidePolicy) (s : Scr) (text0 : Bytes) (w0 : Nat) (hwf : RowsWF s) :
+/-- **text, every branch of `Scr.put`, both policies.** The write touches only `putRows` and
+    keeps size and shape; under the span policy the rows must be well formed (that is what makes
+    the insertion after a wide character keep the row length). -/
+theorem upd_put (pol : WidePolicy) (s : Scr) (text0 : Bytes) (w0 : Nat)
+    (hwf : pol = .keep → RowsWF s) :
     Upd (putRows s) s (Scr.put pol s text0 w0) := by
   rw [put_eq]
   obtain ⟨f1, f2, f3, f4, f5, f6, f7⟩ := pre_fields s (effW s w0)
-  have hwf1 := pre_rowsWF s (effW s w0) hwf
+  have hwf1 := fun hp => pre_rowsWF s (effW s w0) (hwf hp)
   have u1 : Upd (putRows s) s (pre s (effW s w0)) := (upd_pre s (effW s w0)).mono (fun y hy => Or.inr hy)
   generalize pre s (effW s w0) = s1 at *
   have u2 : Upd (putRows s) s1
       (s1.setRow s1.cy (putRowOf pol s1 (effText s text0 w0) (effW s w0))) := by
     refine (upd_setRow s1 s1.cy _ ?_).mono ?_
     · intro hs hc
-      rw [putRowOf_length _ _ _ _ (effW_pos s w0) (hwf1 _ (row_mem s1 s1.cy hc))]
+      rw [putRowOf_length _ _ _ _ (effW_pos s w0) (fun hp => hwf1 hp _ (row_mem s1 s1.cy hc))]
       exact hs.2 _ (row_mem s1 s1.cy hc)
     · intro y hy
       left
@@ -872,12 +884,14 @@ theorem sg_decModes (t : Term) (v : Bool) (ps : List Int) : SameGrids t (t.decMo
     rw [decModes_cons]
     exact sg_trans (sg_decMode t p v) (ih _)
 
-theorem decMode_onAlt (t : Term) (p : Int) (v : Bool) (hp : p ≠ 1049) :
-    (t.decMode p v).1.onAlt = t.onAlt := by
+theorem stepU_decMode (D : Nat → Prop) (t : Term) (p : Int) (v : Bool) (hp : p ≠ 1049) :
+    StepU D t (t.decMode p v).1 := by
   unfold Term.decMode
-  repeat' split
-  all_goals first | rfl | contradiction | skip
-  unfold Term.setScr; cases t.onAlt <;> simp
+  stepU_leaves
+  contradiction
+
+theorem decMode_onAlt (t : Term) (p : Int) (v : Bool) (hp : p ≠ 1049) :
+    (t.decMode p v).1.onAlt = t.onAlt := (stepU_decMode (fun _ => False) t p v hp).onAlt
 
 theorem decModes_onAlt (t : Term) (v : Bool) (ps : List Int) (h : (1049 : Int) ∉ ps) :
     (t.decModes v ps).1.onAlt = t.onAlt := by
@@ -897,22 +911,12 @@ def isDecset : Tok → Prop
 instance (tok : Tok) : Decidable (isDecset tok) := by
   cases tok <;> unfold isDecset <;> infer_instance
 
-theorem damage_csi_other (t : Term) (pfx : UInt8) (ps : List Int) (fin : UInt8) (h0 : pfx ≠ 0)
-    (h : ¬ (pfx = 0x3f ∧ (fin = 0x68 ∨ fin = 0x6c))) :
-    t.damage (.csi pfx ps true fin) = [] := by
-  have : ¬ (pfx = 0x3f ∧ (fin = 0x68 ∨ fin = 0x6c) ∧ ps.contains 1049 = true) :=
-    fun hh => h ⟨hh.1, hh.2.1⟩
-  simp [Term.damage, h0, this]
-
-/-- **every token other than DECSET / DECRST** keeps the active buffer active and changes cells
-    of the active screen only in announced rows (rows of the screen must be well formed for the
-    span policy's insertion after a wide character) -/
-theorem stepU_apply (cw : Nat → Nat) (t : Term) (tok : Tok) (hd : ¬ isDecset tok)
-    (hwf : RowsWF t.scr) : StepU (dmgRow t tok) t (Term.apply cw t tok).1 := by
+/-- every token other than text and DECSET / DECRST keeps the active buffer active and changes
+    cells of the active screen only in announced rows -/
+theorem stepU_apply_other (cw : Nat → Nat) (t : Term) (tok : Tok) (hd : ¬ isDecset tok)
+    (hnt : ∀ st cp, tok ≠ .text st cp) : StepU (dmgRow t tok) t (Term.apply cw t tok).1 := by
   cases tok with
-  | text st cp =>
-    refine stepU_setScr _ _ ((upd_put t.pol t.scr st (cw cp) hwf).mono fun y hy => ?_)
-    exact (dmgRow_text t st cp y).2 hy
+  | text st cp => exact absurd rfl (hnt st cp)
   | ctl b =>
     simp only [Term.apply]
     stepU_leaves
@@ -971,7 +975,1012 @@ theorem stepU_apply (cw : Nat → Nat) (t : Term) (tok : Tok) (hd : ¬ isDecset 
     stepU_leaves
   | dcs => exact stepU_refl _ _
 
+/-- **every token other than DECSET / DECRST** keeps the active buffer active and changes cells
+    of the active screen only in announced rows (for text under the span policy the rows of the
+    screen must be well formed: insertion after a wide character) -/
+theorem stepU_apply (cw : Nat → Nat) (t : Term) (tok : Tok) (hd : ¬ isDecset tok)
+    (hwf : t.pol = .keep → RowsWF t.scr) : StepU (dmgRow t tok) t (Term.apply cw t tok).1 := by
+  cases tok with
+  | text st cp =>
+    refine stepU_setScr _ _ ((upd_put t.pol t.scr st (cw cp) hwf).mono fun y hy => ?_)
+    exact (dmgRow_text t st cp y).2 hy
+  | ctl b => exact stepU_apply_other cw t _ hd (fun _ _ h => by cases h)
+  | esc i f => exact stepU_apply_other cw t _ hd (fun _ _ h => by cases h)
+  | csi a b c d => exact stepU_apply_other cw t _ hd (fun _ _ h => by cases h)
+  | osc a b c => exact stepU_apply_other cw t _ hd (fun _ _ h => by cases h)
+  | dcs => exact stepU_apply_other cw t _ hd (fun _ _ h => by cases h)
+
+/-- which buffer is active can only be changed by DECSET / DECRST with parameter 1049 -/
+theorem onAlt_apply (cw : Nat → Nat) (t : Term) (tok : Tok)
+    (h : ∀ ps fin, tok = .csi 0x3f ps true fin → (fin = 0x68 ∨ fin = 0x6c) → (1049 : Int) ∉ ps) :
+    (Term.apply cw t tok).1.onAlt = t.onAlt := by
+  cases tok with
+  | text st cp => show (t.setScr _).onAlt = t.onAlt; unfold Term.setScr; cases t.onAlt <;> simp
+  | csi pfx ps clean fin =>
+    by_cases hd : isDecset (.csi pfx ps clean fin)
+    · obtain ⟨a, b, c⟩ := hd
+      subst a; subst b
+      have h49 := h ps fin rfl c
+      have : (Term.apply cw t (.csi 0x3f ps true fin)).1 = (t.decModes (decide (fin = 0x68)) ps).1 := by
+        rcases c with c | c <;> subst c <;> rfl
+      rw [this]
+      exact decModes_onAlt t _ ps h49
+    · exact (stepU_apply_other cw t _ hd (fun _ _ h => by cases h)).onAlt
+  | ctl b => exact (stepU_apply_other cw t _ (by simp [isDecset]) (fun _ _ h => by cases h)).onAlt
+  | esc i f => exact (stepU_apply_other cw t _ (by simp [isDecset]) (fun _ _ h => by cases h)).onAlt
+  | osc a b c => exact (stepU_apply_other cw t _ (by simp [isDecset]) (fun _ _ h => by cases h)).onAlt
+  | dcs => exact (stepU_apply_other cw t _ (by simp [isDecset]) (fun _ _ h => by cases h)).onAlt
+
+/-! ### announced cells -/
+
+theorem damage_fullwidth (t : Term) (tok : Tok) :
+    ∀ r ∈ t.damage tok, r.x1 = 0 ∧ r.x2 = t.scr.w := by
+  intro r hr
+  cases tok <;> simp only [Term.damage] at hr <;> (repeat' split at hr) <;>
+    simp [rowsRegion] at hr <;> (first | (rcases hr with rfl | rfl <;> simp) | (subst hr; simp))
+
 end Lemmas
 open Lemmas
+
+/-- cell `(x,y)` lies in one of the regions announced while `tok` is applied in state `t` -/
+def announced (t : Term) (tok : Tok) (x y : Nat) : Bool := (t.damage tok).any (fun r => r.mem x y)
+
+/-- the well-formedness the span policy needs: rows of the active screen are `rowWF` -/
+def NeedWF (t : Term) : Prop := t.pol = .keep → RowsWF t.scr
+
+namespace Lemmas
+
+theorem announced_iff (t : Term) (tok : Tok) (x y : Nat) (hx : x < t.scr.w) :
+    announced t tok x y = true ↔ dmgRow t tok y := by
+  unfold announced dmgRow
+  rw [List.any_eq_true]
+  constructor
+  · rintro ⟨r, hr, hm⟩
+    simp only [Region.mem, Bool.and_eq_true, decide_eq_true_eq] at hm
+    exact ⟨r, hr, hm.1.2, hm.2⟩
+  · rintro ⟨r, hr, h1, h2⟩
+    obtain ⟨a, b⟩ := damage_fullwidth t tok r hr
+    refine ⟨r, hr, ?_⟩
+    simp only [Region.mem, Bool.and_eq_true, decide_eq_true_eq]
+    omega
+
+theorem scr_grid_of_onAlt {t t' : Term} (h : t'.onAlt = t.onAlt) (hm : t'.main.grid = t.main.grid)
+    (ha : t'.alt.grid = t.alt.grid) : t'.scr.grid = t.scr.grid := by
+  unfold Term.scr; rw [h]; cases t.onAlt <;> simp [hm, ha]
+
+theorem isDecset_elim {tok : Tok} (h : isDecset tok) :
+    ∃ ps fin, tok = .csi 0x3f ps true fin ∧ (fin = 0x68 ∨ fin = 0x6c) := by
+  cases tok with
+  | csi pfx ps clean fin =>
+    obtain ⟨a, b, c⟩ := h
+    subst a; subst b
+    exact ⟨ps, fin, rfl, c⟩
+  | _ => exact absurd h (by simp [isDecset])
+
+theorem apply_decset (cw : Nat → Nat) (t : Term) (ps : List Int) (fin : UInt8)
+    (hf : fin = 0x68 ∨ fin = 0x6c) :
+    (Term.apply cw t (.csi 0x3f ps true fin)).1 = (t.decModes (decide (fin = 0x68)) ps).1 := by
+  rcases hf with h | h <;> subst h <;> rfl
+
+theorem damage_decset (t : Term) (ps : List Int) (fin : UInt8) (hf : fin = 0x68 ∨ fin = 0x6c) :
+    t.damage (.csi 0x3f ps true fin) =
+      if (1049 : Int) ∈ ps then [rowsRegion t.scr 0 t.scr.h] else [] := by
+  rcases hf with h | h <;> subst h <;> simp [Term.damage]
+
+/-- sizes, shapes and policy after any token -/
+theorem apply_geo (cw : Nat → Nat) (t : Term) (tok : Tok) (hwf : NeedWF t) :
+    (Term.apply cw t tok).1.pol = t.pol ∧
+    (Term.apply cw t tok).1.main.w = t.main.w ∧ (Term.apply cw t tok).1.main.h = t.main.h ∧
+    (Term.apply cw t tok).1.alt.w = t.alt.w ∧ (Term.apply cw t tok).1.alt.h = t.alt.h ∧
+    (Shaped t.main → Shaped (Term.apply cw t tok).1.main) ∧
+    (Shaped t.alt → Shaped (Term.apply cw t tok).1.alt) := by
+  by_cases hd : isDecset tok
+  · obtain ⟨ps, fin, rfl, hf⟩ := isDecset_elim hd
+    rw [apply_decset cw t ps fin hf]
+    have sg := sg_decModes t (decide (fin = 0x68)) ps
+    refine ⟨sg.pol, sg.mw, sg.mh, sg.aw, sg.ah, ?_, ?_⟩
+    · intro h; exact ⟨by rw [sg.mg, sg.mh]; exact h.1, fun r hr => by rw [sg.mw]; exact h.2 r (sg.mg ▸ hr)⟩
+    · intro h; exact ⟨by rw [sg.ag, sg.ah]; exact h.1, fun r hr => by rw [sg.aw]; exact h.2 r (sg.ag ▸ hr)⟩
+  · have st := stepU_apply cw t tok hd hwf
+    have hon := st.onAlt
+    have hin := st.inactive
+    have hu := st.upd
+    unfold Term.scr at hu
+    rw [hon] at hu
+    cases ho : t.onAlt
+    · simp only [ho, Bool.false_eq_true, if_false] at hu hin
+      rw [hin]
+      exact ⟨st.pol, hu.w, hu.h, rfl, rfl, hu.shaped, id⟩
+    · simp only [ho, if_true] at hu hin
+      rw [hin]
+      exact ⟨st.pol, rfl, rfl, hu.w, hu.h, id, hu.shaped⟩
+
+/-- rows with a cell that is not announced are unchanged (the announcements span the width) -/
+theorem apply_frame (cw : Nat → Nat) (t : Term) (tok : Tok) (hs : Shaped t.scr) (hwf : NeedWF t)
+    (x y : Nat) (hx : x < t.scr.w) (hy : y < t.scr.h) (hn : announced t tok x y = false) :
+    (Term.apply cw t tok).1.scr.grid[y]? = t.scr.grid[y]? := by
+  have hnd : ¬ dmgRow t tok y := by
+    rw [← announced_iff t tok x y hx, hn]; simp
+  by_cases hd : isDecset tok
+  · obtain ⟨ps, fin, rfl, hf⟩ := isDecset_elim hd
+    have sg := sg_decModes t (decide (fin = 0x68)) ps
+    by_cases h49 : (1049 : Int) ∈ ps
+    · exfalso
+      apply hnd
+      refine ⟨rowsRegion t.scr 0 t.scr.h, ?_, Nat.zero_le _, hy⟩
+      rw [damage_decset t ps fin hf, if_pos h49]; simp
+    · rw [apply_decset cw t ps fin hf,
+        scr_grid_of_onAlt (decModes_onAlt t _ ps h49) sg.mg sg.ag]
+  · exact (stepU_apply cw t tok hd hwf).upd.frame hs y hnd
+
+/-- the copy repainted from the announcements equals the new screen, given the cell-level frame -/
+theorem repaint_eq (s s' : Scr) (rs : List Region) (hs : Shaped s) (hs' : Shaped s')
+    (hw : s'.w = s.w) (hh : s'.h = s.h)
+    (hframe : ∀ x y, x < s.w → y < s.h → rs.any (fun r => r.mem x y) = false →
+      (s'.row y)[x]? = (s.row y)[x]?) :
+    repaint s.grid s'.grid rs = s'.grid := by
+  unfold repaint
+  apply List.ext_getElem?
+  intro y
+  rw [List.getElem?_mapIdx]
+  by_cases hy : y < s.h
+  · have h1 : y < s.grid.length := by rw [hs.1]; exact hy
+    have h2 : y < s'.grid.length := by rw [hs'.1, hh]; exact hy
+    have l1 : (s.grid[y]).length = s.w := hs.2 _ (List.getElem_mem _)
+    have l2 : (s'.grid[y]).length = s.w := by rw [← hw]; exact hs'.2 _ (List.getElem_mem _)
+    have r1 : s.row y = s.grid[y] := by rw [row_eq, List.getElem?_eq_getElem h1]; rfl
+    have r2 : s'.row y = s'.grid[y] := by rw [row_eq, List.getElem?_eq_getElem h2]; rfl
+    rw [List.getElem?_eq_getElem h1, List.getElem?_eq_getElem h2]
+    simp only [Option.map_some]
+    congr 1
+    apply List.ext_getElem?
+    intro x
+    rw [List.getElem?_mapIdx]
+    by_cases hx : x < s.w
+    · rw [List.getElem?_eq_getElem (by omega : x < (s.grid[y]).length),
+        List.getElem?_eq_getElem (by omega : x < (s'.grid[y]).length)]
+      simp only [Option.map_some]
+      congr 1
+      split
+      · have e1 : s'.grid.getD y [] = s'.grid[y] := by
+          rw [List.getD_eq_getElem?_getD, List.getElem?_eq_getElem h2]; rfl
+        rw [e1, List.getD_eq_getElem?_getD, List.getElem?_eq_getElem (by omega)]; rfl
+      · next hany =>
+        have := hframe x y hx hy (by simpa using hany)
+        rw [r1, r2, List.getElem?_eq_getElem (by omega), List.getElem?_eq_getElem (by omega)] at this
+        exact (Option.some.inj this).symm
+    · rw [List.getElem?_eq_none (by omega), List.getElem?_eq_none (by omega)]; rfl
+  · rw [List.getElem?_eq_none (by rw [hs.1]; omega), List.getElem?_eq_none (by rw [hs'.1, hh]; omega)]
+    rfl
+
+theorem shaped_scr {t : Term} (hm : Shaped t.main) (ha : Shaped t.alt) : Shaped t.scr := by
+  unfold Term.scr; split <;> assumption
+
+theorem scr_size {t : Term} (hsz : t.main.w = t.alt.w ∧ t.main.h = t.alt.h) :
+    t.scr.w = t.main.w ∧ t.scr.h = t.main.h := by
+  unfold Term.scr; split
+  · exact ⟨hsz.1.symm, hsz.2.symm⟩
+  · exact ⟨rfl, rfl⟩
+
+/-- one token, in terms of shapes: the general form of `shadow_sync` -/
+theorem shadow_sync_of_shaped (cw : Nat → Nat) (t : Term) (tok : Tok)
+    (hm : Shaped t.main) (ha : Shaped t.alt) (hsz : t.main.w = t.alt.w ∧ t.main.h = t.alt.h)
+    (hwf : NeedWF t) :
+    repaint t.scr.grid (Term.apply cw t tok).1.scr.grid (t.damage tok) =
+      (Term.apply cw t tok).1.scr.grid := by
+  obtain ⟨_, g1, g2, g3, g4, g5, g6⟩ := apply_geo cw t tok hwf
+  have hsz' : (Term.apply cw t tok).1.main.w = (Term.apply cw t tok).1.alt.w ∧
+      (Term.apply cw t tok).1.main.h = (Term.apply cw t tok).1.alt.h := by
+    rw [g1, g2, g3, g4]; exact hsz
+  have z := scr_size hsz
+  have z' := scr_size hsz'
+  apply repaint_eq _ _ _ (shaped_scr hm ha) (shaped_scr (g5 hm) (g6 ha))
+  · rw [z'.1, z.1, g1]
+  · rw [z'.2, z.2, g2]
+  · intro x y hx hy hn
+    rw [row_eq, row_eq, apply_frame cw t tok (shaped_scr hm ha) hwf x y hx hy hn]
+
+end Lemmas
+open Lemmas
+
+/-! ## 4. Property theorems: damage and shadow copy -/
+
+/-- **C10 (1) — every change is announced.** For every token, in every state satisfying the
+    invariant: a cell `(x,y)` of the screen that lies in no region announced for the token is,
+    on the ACTIVE screen after the token, what it was on the active screen before. (When the
+    token switches buffers the hypothesis is never met: `switch_announces_everything`.) -/
+theorem changes_announced (cw : Nat → Nat) (t : Term) (tok : Tok)
+    (hm : t.main.inv = true) (ha : t.alt.inv = true)
+    (x y : Nat) (hx : x < t.scr.w) (hy : y < t.scr.h)
+    (hn : announced t tok x y = false) :
+    ((Term.apply cw t tok).1.scr.row y)[x]? = (t.scr.row y)[x]? := by
+  have hs : Shaped t.scr := shaped_scr (inv_shaped hm) (inv_shaped ha)
+  have hwf : NeedWF t := fun _ => by
+    unfold Term.scr; split
+    · exact inv_rowsWF ha
+    · exact inv_rowsWF hm
+  rw [row_eq, row_eq, apply_frame cw t tok hs hwf x y hx hy hn]
+
+/-- **C10 (1'a).** Only `CSI ? … h` / `CSI ? … l` with 1049 among the parameters can change which
+    buffer is active. -/
+theorem switch_only_1049 (cw : Nat → Nat) (t : Term) (tok : Tok)
+    (hsw : (Term.apply cw t tok).1.onAlt ≠ t.onAlt) :
+    ∃ ps fin, tok = .csi 0x3f ps true fin ∧ (fin = 0x68 ∨ fin = 0x6c) ∧ (1049 : Int) ∈ ps := by
+  false_or_by_contra
+  rename_i hne
+  apply hsw
+  apply onAlt_apply
+  intro ps fin h1 h2 h3
+  exact hne ⟨ps, fin, h1, h2, h3⟩
+
+/-- **C10 (1'b), buffer switches.** A token after which the other buffer is active announces
+    every cell of the screen, so `changes_announced` and `shadow_sync` hold across a switch with
+    the frontend re-reading the whole (new) active screen. -/
+theorem switch_announces_everything (cw : Nat → Nat) (t : Term) (tok : Tok)
+    (hsw : (Term.apply cw t tok).1.onAlt ≠ t.onAlt)
+    (x y : Nat) (hx : x < t.scr.w) (hy : y < t.scr.h) : announced t tok x y = true := by
+  obtain ⟨ps, fin, rfl, hf, h49⟩ := switch_only_1049 cw t tok hsw
+  rw [announced_iff t _ x y hx]
+  refine ⟨rowsRegion t.scr 0 t.scr.h, ?_, Nat.zero_le _, hy⟩
+  rw [damage_decset t ps fin hf, if_pos h49]; simp
+
+/-- **C10 (2) — the shadow copy is exact after every token.** In every state satisfying the
+    invariant (both buffers, which `Resize` keeps at the same size), a frontend whose copy equals
+    the active screen before the token and that re-reads exactly the announced cells afterwards
+    holds an exact copy of the (possibly other) active screen after the token: text under both
+    policies with early and late autowrap, LF / FF / IND / RI, EL / ED / ECH / DCH, SU / SD / IL /
+    DL, buffer switches, and every token that changes no cell. -/
+theorem shadow_sync (cw : Nat → Nat) (t : Term) (tok : Tok)
+    (hm : t.main.inv = true) (ha : t.alt.inv = true)
+    (hsz : t.main.w = t.alt.w ∧ t.main.h = t.alt.h)
+    (shadow : List Row) (hsh : shadow = t.scr.grid) :
+    repaint shadow (Term.apply cw t tok).1.scr.grid (t.damage tok) =
+      (Term.apply cw t tok).1.scr.grid := by
+  subst hsh
+  refine shadow_sync_of_shaped cw t tok (inv_shaped hm) (inv_shaped ha) hsz (fun _ => ?_)
+  unfold Term.scr; split
+  · exact inv_rowsWF ha
+  · exact inv_rowsWF hm
+
+/-! ### runs of tokens -/
+
+/-- the terminal state after a list of tokens -/
+def stateAfter (cw : Nat → Nat) (t : Term) (toks : List Tok) : Term :=
+  toks.foldl (fun t tk => (Term.apply cw t tk).1) t
+
+/-- the frontend's copy after a list of tokens: after each token it re-reads, from the then
+    active screen, exactly the cells announced for that token -/
+def shadowAfter (cw : Nat → Nat) : Term → List Row → List Tok → List Row
+  | _, sh, [] => sh
+  | t, sh, tok :: toks =>
+    shadowAfter cw (Term.apply cw t tok).1
+      (repaint sh (Term.apply cw t tok).1.scr.grid (t.damage tok)) toks
+
+/-- the invariant holds (both buffers) in every state of the run in which a token is applied -/
+def InvAlong (cw : Nat → Nat) : Term → List Tok → Prop
+  | _, [] => True
+  | t, tok :: toks =>
+    t.main.inv = true ∧ t.alt.inv = true ∧ InvAlong cw (Term.apply cw t tok).1 toks
+
+/-- what is really used of the invariant along a run: under the span policy the rows of the
+    active screen are well formed whenever a token is applied -/
+def WFAlong (cw : Nat → Nat) : Term → List Tok → Prop
+  | _, [] => True
+  | t, tok :: toks => NeedWF t ∧ WFAlong cw (Term.apply cw t tok).1 toks
+
+namespace Lemmas
+
+theorem needWF_of_inv {t : Term} (hm : t.main.inv = true) (ha : t.alt.inv = true) : NeedWF t := by
+  intro _
+  unfold Term.scr; split
+  · exact inv_rowsWF ha
+  · exact inv_rowsWF hm
+
+theorem wfAlong_of_inv (cw : Nat → Nat) (t : Term) (toks : List Tok) (h : InvAlong cw t toks) :
+    WFAlong cw t toks := by
+  induction toks generalizing t with
+  | nil => trivial
+  | cons tok toks ih => exact ⟨needWF_of_inv h.1 h.2.1, ih _ h.2.2⟩
+
+theorem wfAlong_blank (cw : Nat → Nat) (t : Term) (toks : List Tok) (hp : t.pol = .blank) :
+    WFAlong cw t toks := by
+  induction toks generalizing t with
+  | nil => trivial
+  | cons tok toks ih =>
+    have hn : NeedWF t := fun h => by rw [hp] at h; cases h
+    exact ⟨hn, ih _ ((apply_geo cw t tok hn).1.trans hp)⟩
+
+theorem invAlong_take (cw : Nat → Nat) (t : Term) (toks : List Tok) (k : Nat)
+    (h : InvAlong cw t toks) : InvAlong cw t (toks.take k) := by
+  induction toks generalizing t k with
+  | nil => simpa using h
+  | cons tok toks ih =>
+    cases k with
+    | zero => trivial
+    | succ k => exact ⟨h.1, h.2.1, ih _ k h.2.2⟩
+
+/-- the general form of the run theorem -/
+theorem shadow_sync_run_of_wf (cw : Nat → Nat) (t : Term) (toks : List Tok)
+    (hm : Shaped t.main) (ha : Shaped t.alt) (hsz : t.main.w = t.alt.w ∧ t.main.h = t.alt.h)
+    (hwf : WFAlong cw t toks) :
+    shadowAfter cw t t.scr.grid toks = (stateAfter cw t toks).scr.grid := by
+  induction toks generalizing t with
+  | nil => rfl
+  | cons tok toks ih =>
+    obtain ⟨_, g1, g2, g3, g4, g5, g6⟩ := apply_geo cw t tok hwf.1
+    show shadowAfter cw (Term.apply cw t tok).1
+      (repaint t.scr.grid (Term.apply cw t tok).1.scr.grid (t.damage tok)) toks = _
+    rw [shadow_sync_of_shaped cw t tok hm ha hsz hwf.1]
+    exact ih _ (g5 hm) (g6 ha) (by rw [g1, g2, g3, g4]; exact hsz) hwf.2
+
+end Lemmas
+open Lemmas
+
+/-- **C10 (3) — the shadow copy is exact along a whole run.** Start with a copy of the active
+    screen; after each token re-read exactly the announced cells. If the invariant holds in
+    every state in which a token is applied (`InvAlong`), the copy equals the active screen at
+    the end — and, the statement being for every list, after every token
+    (`shadow_sync_every_step`).
+
+    About the hypothesis `InvAlong`: it is used only for the span policy's insertion after a wide
+    character (`Row.putKeep` keeps the row length only on a well-formed row). For the grid policy
+    it is not needed at all (`shadow_sync_run_blank`, closed form). For the span policy it is
+    taken as a hypothesis here; Props/C02 (`apply_wf`, `wf_inv`) proves that every state
+    reachable with a width function bounded by 2 satisfies it, so it holds along every run of a
+    real terminal. It cannot be dropped for arbitrary width functions:
+    `Examples.keep_width3_needs_invAlong_example`. -/
+theorem shadow_sync_run (cw : Nat → Nat) (t : Term) (toks : List Tok)
+    (hsz : t.main.w = t.alt.w ∧ t.main.h = t.alt.h) (hinv : InvAlong cw t toks)
+    (hm : t.main.inv = true) (ha : t.alt.inv = true) :
+    shadowAfter cw t t.scr.grid toks = (stateAfter cw t toks).scr.grid :=
+  shadow_sync_run_of_wf cw t toks (inv_shaped hm) (inv_shaped ha) hsz (wfAlong_of_inv cw t toks hinv)
+
+/-- **C10 (3), compared after every parser step**: the copy is exact after every prefix of the run -/
+theorem shadow_sync_every_step (cw : Nat → Nat) (t : Term) (toks : List Tok)
+    (hsz : t.main.w = t.alt.w ∧ t.main.h = t.alt.h) (hinv : InvAlong cw t toks)
+    (hm : t.main.inv = true) (ha : t.alt.inv = true) (k : Nat) :
+    shadowAfter cw t t.scr.grid (toks.take k) = (stateAfter cw t (toks.take k)).scr.grid :=
+  shadow_sync_run cw t (toks.take k) hsz (invAlong_take cw t toks k hinv) hm ha
+
+/-- **C10 (3), grid policy, closed form.** For the grid buffer (`WidePolicy.blank`) nothing has
+    to be assumed about intermediate states: from any state whose two buffers satisfy the
+    invariant and have the same size, for every list of tokens, the copy refreshed only from the
+    announcements equals the active screen after the run (and after every prefix). -/
+theorem shadow_sync_run_blank (cw : Nat → Nat) (t : Term) (toks : List Tok)
+    (hpol : t.pol = .blank) (hm : t.main.inv = true) (ha : t.alt.inv = true)
+    (hsz : t.main.w = t.alt.w ∧ t.main.h = t.alt.h) :
+    shadowAfter cw t t.scr.grid toks = (stateAfter cw t toks).scr.grid :=
+  shadow_sync_run_of_wf cw t toks (inv_shaped hm) (inv_shaped ha) hsz (wfAlong_blank cw t toks hpol)
+
+/-! ### byte streams -/
+
+/-- the tokens `runFuel` applies -/
+def toksFuel : Nat → Bytes → List Tok
+  | 0, _ => []
+  | fuel+1, bs =>
+    match next bs with
+    | .need => []
+    | .tok tk n => tk :: toksFuel fuel (bs.drop n)
+
+/-- the tokens the read loop `run` applies to a byte stream -/
+def toksOf (bs : Bytes) : List Tok := toksFuel (bs.length + 1) bs
+
+theorem runFuel_state (cw : Nat → Nat) (fuel : Nat) (t : Term) (bs : Bytes) (evs : List Ev) :
+    (runFuel cw fuel t bs evs).1 = stateAfter cw t (toksFuel fuel bs) := by
+  induction fuel generalizing t bs evs with
+  | zero => rfl
+  | succ fuel ih =>
+    unfold runFuel toksFuel
+    cases next bs with
+    | need => rfl
+    | tok tk n => exact ih _ _ _
+
+/-- **C10 (3), byte streams.** For every input stream at every size: the state `run` reaches is
+    the state after the stream's tokens, and the copy refreshed token by token from the
+    announcements equals its active screen — provided the invariant holds in the states the
+    tokens are applied in (see `shadow_sync_run`). -/
+theorem shadow_sync_stream (cw : Nat → Nat) (t : Term) (bs : Bytes)
+    (hsz : t.main.w = t.alt.w ∧ t.main.h = t.alt.h) (hinv : InvAlong cw t (toksOf bs))
+    (hm : t.main.inv = true) (ha : t.alt.inv = true) :
+    shadowAfter cw t t.scr.grid (toksOf bs) = (run cw t bs).1.scr.grid := by
+  unfold run
+  rw [runFuel_state]
+  exact shadow_sync_run cw t _ hsz hinv hm ha
+
+/-- **C10 (3), byte streams, grid policy.** For every input stream at every size: the state
+    `run` reaches is the state after the stream's tokens, and the copy refreshed token by token
+    from the announcements equals its active screen. -/
+theorem shadow_sync_stream_blank (cw : Nat → Nat) (t : Term) (bs : Bytes)
+    (hpol : t.pol = .blank) (hm : t.main.inv = true) (ha : t.alt.inv = true)
+    (hsz : t.main.w = t.alt.w ∧ t.main.h = t.alt.h) :
+    shadowAfter cw t t.scr.grid (toksOf bs) = (run cw t bs).1.scr.grid := by
+  unfold run
+  rw [runFuel_state]
+  exact shadow_sync_run_blank cw t _ hpol hm ha hsz
+
+/-! ## 5. Notifications: the last announced cursor / rendition / view values are the actual ones -/
+
+/-- the cursor position a frontend holds after the events `evs`, having held `old` before -/
+def lastCursor (evs : List Ev) (old : Nat × Nat) : Nat × Nat :=
+  evs.foldl (fun acc e => match e with | .cursor x y => (x, y) | _ => acc) old
+
+/-- the rendition a frontend holds after the events `evs` -/
+def lastStyle (evs : List Ev) (old : Style) : Style :=
+  evs.foldl (fun acc e => match e with | .style st => st | _ => acc) old
+
+/-- view flag `i` as a frontend holds it after the events `evs` -/
+def lastVFlag (i : Nat) (evs : List Ev) (old : Bool) : Bool :=
+  evs.foldl (fun acc e => match e with | .vflag j v => if j = i then v else acc | _ => acc) old
+
+/-- view int `i` as a frontend holds it after the events `evs` -/
+def lastVInt (i : Nat) (evs : List Ev) (old : Int) : Int :=
+  evs.foldl (fun acc e => match e with | .vint j v => if j = i then v else acc | _ => acc) old
+
+/-- view string `i` as a frontend holds it after the events `evs` -/
+def lastVStr (i : Nat) (evs : List Ev) (old : Bytes) : Bytes :=
+  evs.foldl (fun acc e => match e with | .vstr j v => if j = i then v else acc | _ => acc) old
+
+/-- no `View*Changed` among the events -/
+def noView (evs : List Ev) : Bool :=
+  evs.all fun e => match e with | .vflag .. => false | .vint .. => false | .vstr .. => false | _ => true
+
+/-- folding the events of `r` over what the frontend held for `t` gives the actual values of
+    the resulting state -/
+structure Ntf (t : Term) (r : Term × List Ev) : Prop where
+  cursor : lastCursor r.2 (t.scr.cx, t.scr.cy) = (r.1.scr.cx, r.1.scr.cy)
+  style : lastStyle r.2 t.scr.sty = r.1.scr.sty
+  vflag : ∀ i old, t.vflags[i]? = some old → r.1.vflags[i]? = some (lastVFlag i r.2 old)
+  vint : ∀ i old, t.vints[i]? = some old → r.1.vints[i]? = some (lastVInt i r.2 old)
+  vstr : ∀ i old, t.vstrs[i]? = some old → r.1.vstrs[i]? = some (lastVStr i r.2 old)
+
+namespace Lemmas
+
+theorem lastVFlag_noView (i : Nat) (evs : List Ev) (old : Bool) (h : noView evs = true) :
+    lastVFlag i evs old = old := by
+  unfold lastVFlag
+  induction evs generalizing old with
+  | nil => rfl
+  | cons e evs ih =>
+    simp only [noView, List.all_cons, Bool.and_eq_true] at h
+    rw [List.foldl_cons]
+    cases e <;> first | exact ih _ h.2 | (exact absurd h.1 (by simp))
+
+theorem lastVInt_noView (i : Nat) (evs : List Ev) (old : Int) (h : noView evs = true) :
+    lastVInt i evs old = old := by
+  unfold lastVInt
+  induction evs generalizing old with
+  | nil => rfl
+  | cons e evs ih =>
+    simp only [noView, List.all_cons, Bool.and_eq_true] at h
+    rw [List.foldl_cons]
+    cases e <;> first | exact ih _ h.2 | (exact absurd h.1 (by simp))
+
+theorem lastVStr_noView (i : Nat) (evs : List Ev) (old : Bytes) (h : noView evs = true) :
+    lastVStr i evs old = old := by
+  unfold lastVStr
+  induction evs generalizing old with
+  | nil => rfl
+  | cons e evs ih =>
+    simp only [noView, List.all_cons, Bool.and_eq_true] at h
+    rw [List.foldl_cons]
+    cases e <;> first | exact ih _ h.2 | (exact absurd h.1 (by simp))
+
+theorem views_setScr (t : Term) (s : Scr) :
+    (t.setScr s).vflags = t.vflags ∧ (t.setScr s).vints = t.vints ∧ (t.setScr s).vstrs = t.vstrs := by
+  unfold Term.setScr; cases t.onAlt <;> simp
+
+/-- leaf: the active screen is replaced, no view event; side conditions on cursor and style -/
+theorem ntf_setScr (t : Term) (s' : Scr) (evs : List Ev) (hv : noView evs = true)
+    (hc : lastCursor evs (t.scr.cx, t.scr.cy) = (s'.cx, s'.cy))
+    (hs : lastStyle evs t.scr.sty = s'.sty) : Ntf t (t.setScr s', evs) := by
+  obtain ⟨v1, v2, v3⟩ := views_setScr t s'
+  refine ⟨?_, ?_, ?_, ?_, ?_⟩
+  · show _ = ((t.setScr s').scr.cx, (t.setScr s').scr.cy); rw [scr_setScr]; exact hc
+  · show _ = (t.setScr s').scr.sty; rw [scr_setScr]; exact hs
+  · intro i old h; show (t.setScr s').vflags[i]? = _; rw [v1, h, lastVFlag_noView i evs old hv]
+  · intro i old h; show (t.setScr s').vints[i]? = _; rw [v2, h, lastVInt_noView i evs old hv]
+  · intro i old h; show (t.setScr s').vstrs[i]? = _; rw [v3, h, lastVStr_noView i evs old hv]
+
+/-- leaf: the state is unchanged and nothing is notified (bell, replies, ignored sequences) -/
+theorem ntf_same (t : Term) (evs : List Ev) (hv : noView evs = true)
+    (hc : lastCursor evs (t.scr.cx, t.scr.cy) = (t.scr.cx, t.scr.cy))
+    (hs : lastStyle evs t.scr.sty = t.scr.sty) : Ntf t (t, evs) :=
+  ⟨hc, hs, fun i old h => by rw [lastVFlag_noView i evs old hv]; exact h,
+   fun i old h => by rw [lastVInt_noView i evs old hv]; exact h,
+   fun i old h => by rw [lastVStr_noView i evs old hv]; exact h⟩
+
+theorem ntf_withScr (t : Term) (s' : Scr) (hs : s'.sty = t.scr.sty) : Ntf t (t.withScr s') :=
+  ntf_setScr t s' _ rfl rfl hs.symm
+
+theorem ntf_setKbd (t : Term) (k : Kbd) : Ntf t (t.setKbd k, []) := by
+  have h : (t.setKbd k).scr = t.scr ∧ (t.setKbd k).vflags = t.vflags ∧
+      (t.setKbd k).vints = t.vints ∧ (t.setKbd k).vstrs = t.vstrs := by
+    unfold Term.setKbd Term.scr; cases t.onAlt <;> simp
+  obtain ⟨h0, h1, h2, h3⟩ := h
+  refine ⟨?_, ?_, ?_, ?_, ?_⟩
+  · show _ = ((t.setKbd k).scr.cx, (t.setKbd k).scr.cy); rw [h0]; rfl
+  · show _ = (t.setKbd k).scr.sty; rw [h0]; rfl
+  · intro i old h; show (t.setKbd k).vflags[i]? = _; rw [h1, h]; rfl
+  · intro i old h; show (t.setKbd k).vints[i]? = _; rw [h2, h]; rfl
+  · intro i old h; show (t.setKbd k).vstrs[i]? = _; rw [h3, h]; rfl
+
+theorem getElem?_set_some {α : Type} (l : List α) (i j : Nat) (v old : α) (h : l[j]? = some old) :
+    (l.set i v)[j]? = some (if i = j then v else old) := by
+  have hj : j < l.length := by
+    false_or_by_contra
+    rw [List.getElem?_eq_none (by omega)] at h; cases h
+  rw [List.getElem?_set]
+  by_cases e : i = j
+  · subst e; simp [hj]
+  · simp [e, h]
+
+theorem ntf_setVFlag (t : Term) (i : Nat) (v : Bool) : Ntf t (t.setVFlag i v) := by
+  refine ⟨rfl, rfl, ?_, fun _ _ h => h, fun _ _ h => h⟩
+  intro j old h
+  show (t.vflags.set i v)[j]? = _
+  rw [getElem?_set_some _ _ _ _ _ h]; rfl
+
+theorem ntf_setVInt (t : Term) (i : Nat) (v : Int) : Ntf t (t.setVInt i v) := by
+  refine ⟨rfl, rfl, fun _ _ h => h, ?_, fun _ _ h => h⟩
+  intro j old h
+  show (t.vints.set i v)[j]? = _
+  rw [getElem?_set_some _ _ _ _ _ h]; rfl
+
+theorem ntf_setVStr (t : Term) (i : Nat) (v : Bytes) : Ntf t (t.setVStr i v) := by
+  refine ⟨rfl, rfl, fun _ _ h => h, fun _ _ h => h, ?_⟩
+  intro j old h
+  show (t.vstrs.set i v)[j]? = _
+  rw [getElem?_set_some _ _ _ _ _ h]; rfl
+
+theorem ntf_dite {t : Term} {c : Prop} [Decidable c] {a b : Term × List Ev}
+    (ha : c → Ntf t a) (hb : ¬c → Ntf t b) : Ntf t (if c then a else b) := by
+  split
+  · exact ha ‹_›
+  · exact hb ‹_›
+
+/-- two steps in a row: the events are concatenated -/
+theorem ntf_trans {t : Term} {r1 : Term × List Ev} {r2 : Term × List Ev}
+    (h1 : Ntf t r1) (h2 : Ntf r1.1 r2) : Ntf t (r2.1, r1.2 ++ r2.2) := by
+  refine ⟨?_, ?_, ?_, ?_, ?_⟩
+  · show lastCursor (r1.2 ++ r2.2) _ = _
+    unfold lastCursor; rw [List.foldl_append]
+    have := h1.cursor; unfold lastCursor at this; rw [this]
+    exact h2.cursor
+  · show lastStyle (r1.2 ++ r2.2) _ = _
+    unfold lastStyle; rw [List.foldl_append]
+    have := h1.style; unfold lastStyle at this; rw [this]
+    exact h2.style
+  · intro i old h
+    show _ = some (lastVFlag i (r1.2 ++ r2.2) old)
+    unfold lastVFlag; rw [List.foldl_append]
+    exact h2.vflag i _ (h1.vflag i old h)
+  · intro i old h
+    show _ = some (lastVInt i (r1.2 ++ r2.2) old)
+    unfold lastVInt; rw [List.foldl_append]
+    exact h2.vint i _ (h1.vint i old h)
+  · intro i old h
+    show _ = some (lastVStr i (r1.2 ++ r2.2) old)
+    unfold lastVStr; rw [List.foldl_append]
+    exact h2.vstr i _ (h1.vstr i old h)
+
+theorem setMargins_fields (s : Scr) (a b : Int) :
+    (s.setMargins a b).cx = s.cx ∧ (s.setMargins a b).cy = s.cy ∧ (s.setMargins a b).sty = s.sty := by
+  unfold Scr.setMargins
+  simp only []
+  split <;> simp
+
+theorem ntf_switchScreen (t : Term) (v : Bool) : Ntf t (t.switchScreen v) := by
+  unfold Term.switchScreen
+  split
+  · exact ntf_same _ _ rfl rfl rfl
+  · exact ⟨rfl, rfl, fun _ _ h => h, fun _ _ h => h, fun _ _ h => h⟩
+
+theorem ntf_decMode (t : Term) (p : Int) (v : Bool) : Ntf t (t.decMode p v) := by
+  unfold Term.decMode
+  repeat' (first
+    | exact ntf_setVFlag _ _ _ | exact ntf_setVInt _ _ _ | exact ntf_switchScreen _ _
+    | exact ntf_same _ _ rfl rfl rfl
+    | exact ntf_setScr _ _ _ rfl rfl rfl
+    | (apply ntf_dite <;> intro _))
+
+theorem ntf_decModes (t : Term) (v : Bool) (ps : List Int) : Ntf t (t.decModes v ps) := by
+  induction ps generalizing t with
+  | nil => exact ntf_same _ _ rfl rfl rfl
+  | cons p ps ih =>
+    rw [decModes_cons]
+    exact ntf_trans (ntf_decMode t p v) (ih _)
+
+/-- close an `Ntf t (if … then … else …)` goal whose leaves are the simple ones -/
+macro "ntf_leaves" : tactic =>
+  `(tactic| repeat' (first
+      | exact ntf_same _ _ rfl rfl rfl
+      | exact ntf_setKbd _ _
+      | exact ntf_setVFlag _ _ _
+      | exact ntf_setVInt _ _ _
+      | exact ntf_setVStr _ _ _
+      | exact ntf_withScr _ _ rfl
+      | exact ntf_setScr _ _ _ rfl rfl rfl
+      | exact ntf_decModes _ _ _
+      | (apply ntf_dite <;> intro _)))
+
+theorem ntf_csiPlain (t : Term) (ps : List Int) (fin : UInt8) : Ntf t (t.csiPlain ps fin) := by
+  unfold Term.csiPlain
+  simp only []
+  ntf_leaves
+  -- IL, DL, SU, SD: `Scr.scroll` keeps cursor and rendition
+  · obtain ⟨_, _, a, b, _, _, _, _, _, c⟩ := scroll_fields t.scr t.scr.cy t.scr.bot (p0 ps 1)
+    exact ntf_setScr _ _ _ rfl (by rw [a, b]; rfl) (by rw [c]; rfl)
+  · obtain ⟨_, _, a, b, _, _, _, _, _, c⟩ := scroll_fields t.scr t.scr.cy t.scr.bot (-(p0 ps 1))
+    exact ntf_setScr _ _ _ rfl (by rw [a, b]; rfl) (by rw [c]; rfl)
+  · obtain ⟨_, _, a, b, _, _, _, _, _, c⟩ := scroll_fields t.scr t.scr.top t.scr.bot (-(p0 ps 1))
+    exact ntf_setScr _ _ _ rfl (by rw [a, b]; rfl) (by rw [c]; rfl)
+  · obtain ⟨_, _, a, b, _, _, _, _, _, c⟩ := scroll_fields t.scr t.scr.top t.scr.bot (p0 ps 1)
+    exact ntf_setScr _ _ _ rfl (by rw [a, b]; rfl) (by rw [c]; rfl)
+  -- DECSTBM
+  · obtain ⟨a, b, c⟩ := setMargins_fields t.scr (pAt ps 0 1 - 1) (pAt ps 1 t.scr.h - 1)
+    exact ntf_setScr _ _ _ rfl (by rw [a, b]; rfl) (by rw [c]; rfl)
+
+theorem ntf_csi (t : Term) (pfx : UInt8) (ps : List Int) (fin : UInt8) : Ntf t (t.csi pfx ps fin) := by
+  unfold Term.csi
+  by_cases h0 : pfx = 0
+  · rw [if_pos h0]; exact ntf_csiPlain _ _ _
+  · rw [if_neg h0]
+    ntf_leaves
+    split
+    · split
+      · exact ntf_setVInt _ _ _
+      · exact ntf_same _ _ rfl rfl rfl
+    · exact ntf_same _ _ rfl rfl rfl
+
+/-- **every token**: the notifications it emits bring the frontend's last-notified values to the
+    actual ones -/
+theorem ntf_apply (cw : Nat → Nat) (t : Term) (tok : Tok) : Ntf t (Term.apply cw t tok) := by
+  cases tok with
+  | text st cp =>
+    exact ntf_setScr _ _ _ rfl rfl (put_sty t.pol t.scr st (cw cp)).symm
+  | ctl b =>
+    simp only [Term.apply]
+    ntf_leaves
+    · exact ntf_withScr _ _ (lineDown_fields _).2.2.2.2.2.2.2.2
+    · exact ntf_withScr _ _ (lineDown_fields _).2.2.2.2.2.2.2.2
+  | esc inter fin =>
+    simp only [Term.apply]
+    ntf_leaves
+    · exact ntf_withScr _ _ (lineDown_fields _).2.2.2.2.2.2.2.2
+    · exact ntf_withScr _ _ (lineUp_fields _).2.2.2.2.2.2.2.2
+  | csi pfx ps clean fin =>
+    simp only [Term.apply]
+    cases clean
+    · exact ntf_same _ _ rfl rfl rfl
+    · simp only [if_true]; exact ntf_csi _ _ _ _
+  | osc n pl wf =>
+    simp only [Term.apply]
+    ntf_leaves
+  | dcs => exact ntf_same _ _ rfl rfl rfl
+
+end Lemmas
+open Lemmas
+
+/-- **C10 (4a) — CursorMoved.** If the last cursor position the frontend was told is the actual
+    one before the token, then after folding the token's events it is the actual cursor of the
+    (possibly other) active screen. Every token, every state. -/
+theorem cursor_last (cw : Nat → Nat) (t : Term) (tok : Tok) (seen : Nat × Nat)
+    (h : seen = (t.scr.cx, t.scr.cy)) :
+    lastCursor (Term.apply cw t tok).2 seen =
+      ((Term.apply cw t tok).1.scr.cx, (Term.apply cw t tok).1.scr.cy) := by
+  subst h; exact (ntf_apply cw t tok).cursor
+
+/-- **C10 (4b) — StyleChanged.** The same for the current rendition (a buffer switch announces
+    the rendition of the buffer switched to). -/
+theorem style_last (cw : Nat → Nat) (t : Term) (tok : Tok) (seen : Style)
+    (h : seen = t.scr.sty) :
+    lastStyle (Term.apply cw t tok).2 seen = (Term.apply cw t tok).1.scr.sty := by
+  subst h; exact (ntf_apply cw t tok).style
+
+/-- **C10 (4c) — ViewFlagChanged**, every index of the flag table -/
+theorem view_last_flag (cw : Nat → Nat) (t : Term) (tok : Tok) (i : Nat) (hi : i < t.vflags.length)
+    (seen : Bool) (h : seen = t.vflags[i]) :
+    (Term.apply cw t tok).1.vflags[i]? = some (lastVFlag i (Term.apply cw t tok).2 seen) := by
+  subst h; exact (ntf_apply cw t tok).vflag i _ (List.getElem?_eq_getElem hi)
+
+/-- **C10 (4d) — ViewIntChanged**, every index of the int table -/
+theorem view_last_int (cw : Nat → Nat) (t : Term) (tok : Tok) (i : Nat) (hi : i < t.vints.length)
+    (seen : Int) (h : seen = t.vints[i]) :
+    (Term.apply cw t tok).1.vints[i]? = some (lastVInt i (Term.apply cw t tok).2 seen) := by
+  subst h; exact (ntf_apply cw t tok).vint i _ (List.getElem?_eq_getElem hi)
+
+/-- **C10 (4e) — ViewStringChanged**, every index of the string table -/
+theorem view_last_str (cw : Nat → Nat) (t : Term) (tok : Tok) (i : Nat) (hi : i < t.vstrs.length)
+    (seen : Bytes) (h : seen = t.vstrs[i]) :
+    (Term.apply cw t tok).1.vstrs[i]? = some (lastVStr i (Term.apply cw t tok).2 seen) := by
+  subst h; exact (ntf_apply cw t tok).vstr i _ (List.getElem?_eq_getElem hi)
+
+/-! ### notifications along a run, a byte stream, and across `Resize` -/
+
+/-- all events of a run of tokens, in order -/
+def eventsOf (cw : Nat → Nat) : Term → List Tok → List Ev
+  | _, [] => []
+  | t, tok :: toks => (Term.apply cw t tok).2 ++ eventsOf cw (Term.apply cw t tok).1 toks
+
+namespace Lemmas
+
+theorem ntf_run (cw : Nat → Nat) (t : Term) (toks : List Tok) :
+    Ntf t (stateAfter cw t toks, eventsOf cw t toks) := by
+  induction toks generalizing t with
+  | nil => exact ntf_same _ _ rfl rfl rfl
+  | cons tok toks ih => exact ntf_trans (ntf_apply cw t tok) (ih (Term.apply cw t tok).1)
+
+theorem runFuel_events (cw : Nat → Nat) (fuel : Nat) (t : Term) (bs : Bytes) (evs : List Ev) :
+    (runFuel cw fuel t bs evs).2.1 = evs ++ eventsOf cw t (toksFuel fuel bs) := by
+  induction fuel generalizing t bs evs with
+  | zero => simp [runFuel, toksFuel, eventsOf]
+  | succ fuel ih =>
+    unfold runFuel toksFuel
+    cases next bs with
+    | need => simp [eventsOf]
+    | tok tk n =>
+      simp only []
+      rw [ih, eventsOf, List.append_assoc]
+
+theorem run_ntf (cw : Nat → Nat) (t : Term) (bs : Bytes) : Ntf t ((run cw t bs).1, (run cw t bs).2.1) := by
+  have h1 : (run cw t bs).1 = stateAfter cw t (toksOf bs) := runFuel_state ..
+  have h2 : (run cw t bs).2.1 = eventsOf cw t (toksOf bs) := by
+    unfold run; rw [runFuel_events]; rfl
+  rw [h1, h2]
+  exact ntf_run cw t _
+
+end Lemmas
+open Lemmas
+
+/-- **C10 (4), whole input.** For every byte stream, from every state: folding all events emitted
+    while `run` consumes the stream over the values the frontend held (equal to the actual ones
+    before) gives the actual cursor, rendition and view values of the state reached — so after
+    each input the most recent CursorMoved / StyleChanged / View\*Changed values are the
+    terminal's actual ones. (Token lists: the same with `stateAfter` / `eventsOf`, by `ntf_run`.) -/
+theorem notifications_last_stream (cw : Nat → Nat) (t : Term) (bs : Bytes) :
+    lastCursor (run cw t bs).2.1 (t.scr.cx, t.scr.cy) =
+      ((run cw t bs).1.scr.cx, (run cw t bs).1.scr.cy) ∧
+    lastStyle (run cw t bs).2.1 t.scr.sty = (run cw t bs).1.scr.sty ∧
+    (∀ i (hi : i < t.vflags.length),
+      (run cw t bs).1.vflags[i]? = some (lastVFlag i (run cw t bs).2.1 t.vflags[i])) ∧
+    (∀ i (hi : i < t.vints.length),
+      (run cw t bs).1.vints[i]? = some (lastVInt i (run cw t bs).2.1 t.vints[i])) ∧
+    (∀ i (hi : i < t.vstrs.length),
+      (run cw t bs).1.vstrs[i]? = some (lastVStr i (run cw t bs).2.1 t.vstrs[i])) := by
+  have h := run_ntf cw t bs
+  exact ⟨h.cursor, h.style, fun i hi => h.vflag i _ (List.getElem?_eq_getElem hi),
+    fun i hi => h.vint i _ (List.getElem?_eq_getElem hi),
+    fun i hi => h.vstr i _ (List.getElem?_eq_getElem hi)⟩
+
+/-- **C10 (4), `Resize`.** The events of `Term.resize` end with the cursor and the rendition of
+    the active buffer, so the frontend's last values are again the actual ones (whatever it held
+    before). -/
+theorem resize_last (t : Term) (w h : Nat) (seenC : Nat × Nat) (seenS : Style) :
+    lastCursor (t.resize w h).2 seenC = ((t.resize w h).1.scr.cx, (t.resize w h).1.scr.cy) ∧
+    lastStyle (t.resize w h).2 seenS = (t.resize w h).1.scr.sty := ⟨rfl, rfl⟩
+
+/-! ### ScrollLines -/
+
+/-- no `ScrollLines` among the events -/
+def noSL (evs : List Ev) : Bool :=
+  evs.all fun e => match e with | .scrollLines _ => false | _ => true
+
+namespace Lemmas
+
+theorem nosl_dite {c : Prop} [Decidable c] {a b : Term × List Ev}
+    (ha : c → noSL a.2 = true) (hb : ¬c → noSL b.2 = true) : noSL (if c then a else b).2 = true := by
+  split
+  · exact ha ‹_›
+  · exact hb ‹_›
+
+theorem nosl_switchScreen (t : Term) (v : Bool) : noSL (t.switchScreen v).2 = true := by
+  unfold Term.switchScreen; split <;> rfl
+
+theorem nosl_decMode (t : Term) (p : Int) (v : Bool) : noSL (t.decMode p v).2 = true := by
+  unfold Term.decMode
+  repeat' (first | rfl | exact nosl_switchScreen _ _ | (apply nosl_dite <;> intro _))
+
+theorem nosl_decModes (t : Term) (v : Bool) (ps : List Int) : noSL (t.decModes v ps).2 = true := by
+  induction ps generalizing t with
+  | nil => rfl
+  | cons p ps ih =>
+    rw [decModes_cons]
+    show noSL ((t.decMode p v).2 ++ ((t.decMode p v).1.decModes v ps).2) = true
+    unfold noSL
+    rw [List.all_append, Bool.and_eq_true]
+    exact ⟨nosl_decMode t p v, ih _⟩
+
+macro "nosl_leaves" : tactic =>
+  `(tactic| repeat' (first | rfl | exact nosl_decModes _ _ _ | (apply nosl_dite <;> intro _)))
+
+theorem nosl_csiPlain (t : Term) (ps : List Int) (fin : UInt8) : noSL (t.csiPlain ps fin).2 = true := by
+  unfold Term.csiPlain
+  simp only []
+  nosl_leaves
+
+theorem nosl_csi (t : Term) (pfx : UInt8) (ps : List Int) (fin : UInt8) :
+    noSL (t.csi pfx ps fin).2 = true := by
+  unfold Term.csi
+  by_cases h0 : pfx = 0
+  · rw [if_pos h0]; exact nosl_csiPlain _ _ _
+  · rw [if_neg h0]
+    nosl_leaves
+    split
+    · split <;> rfl
+    · rfl
+
+theorem nosl_apply (cw : Nat → Nat) (t : Term) (tok : Tok) : noSL (Term.apply cw t tok).2 = true := by
+  cases tok with
+  | text st cp => rfl
+  | ctl b => simp only [Term.apply]; nosl_leaves
+  | esc inter fin => simp only [Term.apply]; nosl_leaves
+  | csi pfx ps clean fin =>
+    simp only [Term.apply]
+    cases clean
+    · rfl
+    · simp only [if_true]; exact nosl_csi _ _ _ _
+  | osc n pl wf => simp only [Term.apply]; nosl_leaves
+  | dcs => rfl
+
+end Lemmas
+open Lemmas
+
+/-- **C10 (5) — ScrollLines: NOT established (known finding).** The clause "rows scrolled off the
+    top of the main screen are announced through ScrollLines before they are lost" does not hold
+    of the implementation: it never calls `ScrollLines`, and accordingly the model emits no
+    `Ev.scrollLines` for any token in any state — which is all this theorem says. A frontend
+    therefore learns of rows leaving the top of the main screen only through the `RegionChanged`
+    of the scroll region (that is enough for the shadow copy above, not for a scrollback). -/
+theorem no_scrollLines_emitted_partial (cw : Nat → Nat) (t : Term) (tok : Tok) :
+    ∀ e ∈ (Term.apply cw t tok).2, ∀ n, e ≠ .scrollLines n := by
+  intro e he n hn
+  have := nosl_apply cw t tok
+  unfold noSL at this
+  rw [List.all_eq_true] at this
+  have h := this e he
+  rw [hn] at h
+  cases h
+
+/-! ## 6. Non-vacuity: concrete states, tokens and runs -/
+namespace Examples
+
+private abbrev d : Style := Style.default
+private abbrev zi : Bytes := [0xE5, 0xAD, 0x97]     -- a double-width character
+/-- a width function: CJK code points are double width -/
+def cw2 : Nat → Nat := fun cp => if cp ≥ 0x1100 then 2 else 1
+
+/-- 4 columns × 3 rows, scroll region rows 0–1, a double-width character in row 0 columns 1–2,
+    cursor on the last column of the bottom margin row, autowrap on -/
+def exMain : Scr :=
+  { w := 4, h := 3,
+    grid := [[blank d, ⟨.ch zi 2, d⟩, ⟨.cont, d⟩, blank d],
+             [⟨.ch [0x62] 1, d⟩, blank d, blank d, blank d],
+             [⟨.ch [0x61] 1, d⟩, blank d, blank d, blank d]],
+    cx := 3, cy := 1, sx := 0, sy := 0, top := 0, bot := 1, wrap := true, sty := d }
+
+/-- span policy, main screen active, blank alternate screen of the same size -/
+def exT : Term := { pol := .keep, main := exMain, alt := Scr.init 4 3 }
+
+def wide : Tok := .text zi 0x5b57
+def switchAlt : Tok := .csi 0x3f [1049] true 0x68
+def switchMain : Tok := .csi 0x3f [1049] true 0x6c
+
+-- the hypotheses of `changes_announced` / `shadow_sync`
+example : exT.main.inv = true ∧ exT.alt.inv = true ∧
+    exT.main.w = exT.alt.w ∧ exT.main.h = exT.alt.h := by decide
+
+-- a double-width character at the last column of the bottom margin: early wrap, the region
+-- scrolls, the screen really changes, and the repainted copy is the new screen
+example : (Term.apply cw2 exT wide).1.scr.grid ≠ exT.scr.grid ∧
+    repaint exT.scr.grid (Term.apply cw2 exT wide).1.scr.grid (exT.damage wide) =
+      (Term.apply cw2 exT wide).1.scr.grid := by decide
+
+-- the hypothesis of `changes_announced` is satisfiable: `CSI 2 K` in row 1 announces nothing of
+-- rows 0 and 2, and changes row 1
+example : announced exT (.csi 0 [2] true 0x4b) 1 0 = false ∧
+    announced exT (.csi 0 [2] true 0x4b) 0 2 = false ∧
+    announced exT (.csi 0 [2] true 0x4b) 0 1 = true ∧
+    (Term.apply cw2 exT (.csi 0 [2] true 0x4b)).1.scr.row 1 ≠ exT.scr.row 1 := by decide
+
+-- span policy with the cursor on the continuation cell (row 0, column 2): `Row.putKeep`
+example :
+    let t1 := (Term.apply cw2 exT (.csi 0 [1, 3] true 0x48)).1
+    contAt (t1.scr.row t1.scr.cy) t1.scr.cx = true ∧
+    (Term.apply cw2 t1 (.text [0x78] 0x78)).1.scr.row 0 =
+      [blank d, ⟨.ch zi 2, d⟩, ⟨.cont, d⟩, ⟨.ch [0x78] 1, d⟩] ∧
+    repaint t1.scr.grid (Term.apply cw2 t1 (.text [0x78] 0x78)).1.scr.grid
+        (t1.damage (.text [0x78] 0x78)) = (Term.apply cw2 t1 (.text [0x78] 0x78)).1.scr.grid := by
+  decide
+
+-- a scroll: LF on the bottom margin moves row 1 to row 0; row 2 (outside the region) is neither
+-- announced nor changed
+example : (Term.apply cw2 exT (.ctl 10)).1.scr.row 0 = exT.scr.row 1 ∧
+    announced exT (.ctl 10) 0 2 = false ∧
+    repaint exT.scr.grid (Term.apply cw2 exT (.ctl 10)).1.scr.grid (exT.damage (.ctl 10)) =
+      (Term.apply cw2 exT (.ctl 10)).1.scr.grid := by decide
+
+-- a buffer switch: the other buffer is active afterwards, every cell is announced
+example : (Term.apply cw2 exT switchAlt).1.onAlt ≠ exT.onAlt ∧
+    (Term.apply cw2 exT switchAlt).1.scr.grid ≠ exT.scr.grid ∧
+    announced exT switchAlt 3 2 = true ∧
+    repaint exT.scr.grid (Term.apply cw2 exT switchAlt).1.scr.grid (exT.damage switchAlt) =
+      (Term.apply cw2 exT switchAlt).1.scr.grid := by decide
+
+/-- a run with a wide character, scrolls, a switch to the alternate screen and back -/
+def exRun : List Tok :=
+  [wide, .ctl 10, .csi 0 [1, 3] true 0x48, .text [0x78] 0x78, switchAlt, wide, .csi 0 [1] true 0x4c,
+   switchMain, .esc [] 0x4d, .csi 0 [] true 0x4a]
+
+-- the hypothesis `InvAlong` of `shadow_sync_run` holds along it (span policy)
+example : InvAlong cw2 exT exRun := by
+  simp only [InvAlong, exRun]
+  decide
+
+-- and the conclusion, computed: the copy is the final screen, which differs from the initial one
+example : shadowAfter cw2 exT exT.scr.grid exRun = (stateAfter cw2 exT exRun).scr.grid ∧
+    (stateAfter cw2 exT exRun).scr.grid ≠ exT.scr.grid := by decide
+
+-- byte level (grid policy): `ESC [ ? 1049 h`, `a`, LF
+example :
+    toksOf [0x1b, 0x5b, 0x3f, 0x31, 0x30, 0x34, 0x39, 0x68, 0x61, 0x0a] =
+      [.csi 0x3f [1049] true 0x68, .text [0x61] 0x61, .ctl 10] := by decide
+
+-- notifications: the wide character moves the cursor from (3,1) to (2,1); the switch announces
+-- the alternate screen's cursor (0,0) and its rendition; `?25l` clears view flag 1
+example : lastCursor (Term.apply cw2 exT wide).2 (3, 1) = (2, 1) ∧
+    lastCursor (Term.apply cw2 exT switchAlt).2 (3, 1) = (0, 0) ∧
+    lastStyle (Term.apply cw2
+      { exT with alt := { Scr.init 4 3 with sty := ⟨0x101#32, colDefault, colDefault⟩ } }
+      switchAlt).2 d = ⟨0x101#32, colDefault, colDefault⟩ ∧
+    lastVFlag 1 (Term.apply cw2 { exT with vflags := [false, true, false, false, false, false] }
+      (.csi 0x3f [25] true 0x6c)).2 true = false := by decide
+
+-- `CSI s` notifies nothing and moves nothing the frontend was told; `?7h` likewise
+example : (Term.apply cw2 exT (.csi 0 [] true 0x73)).2 = [] ∧
+    (Term.apply cw2 exT (.csi 0x3f [7] true 0x68)).2 = [] ∧
+    (Term.apply cw2 exT (.csi 0 [] true 0x73)).1.scr.sx = 3 := by decide
+
+/-- a width function with one triple-width character -/
+def cw3 (cp : Nat) : Nat := if cp = 0x57 then 3 else 1
+
+/-- `WWW  CUP(1,3) x  CUP(1,1) DCH 4  CUP(1,6) W  CUP(1,5) ECH 1  CUP(1,8) x` (the input of
+    Props/C02 `keep_policy_width3_breaks_geo`) -/
+def width3Input : Bytes :=
+  [87, 87, 87, 27, 91, 49, 59, 51, 72, 120, 27, 91, 49, 59, 49, 72, 27, 91, 52, 80, 27, 91, 49, 59,
+   54, 72, 87, 27, 91, 49, 59, 53, 72, 27, 91, 49, 88, 27, 91, 49, 59, 56, 72, 120]
+
+/-- **The hypothesis `InvAlong` of `shadow_sync_run` cannot be dropped under the span policy for
+    a width function that returns 3** (doubt about the MODEL already recorded in Props/C02, C03):
+    on a 9 × 1 span-buffer terminal this input leaves a row of 8 cells, which no copy with rows of
+    9 cells equals; accordingly the invariant fails somewhere along the run. Under the grid
+    policy, or with widths ≤ 2, this does not happen. -/
+theorem keep_width3_needs_invAlong_example :
+    shadowAfter cw3 (Term.init .keep 9 1) (Term.init .keep 9 1).scr.grid (toksOf width3Input) ≠
+      (run cw3 (Term.init .keep 9 1) width3Input).1.scr.grid ∧
+    ¬ InvAlong cw3 (Term.init .keep 9 1) (toksOf width3Input) := by
+  have h1 : shadowAfter cw3 (Term.init .keep 9 1) (Term.init .keep 9 1).scr.grid
+      (toksOf width3Input) ≠ (run cw3 (Term.init .keep 9 1) width3Input).1.scr.grid := by decide
+  refine ⟨h1, fun hinv => h1 ?_⟩
+  exact shadow_sync_stream cw3 _ width3Input ⟨rfl, rfl⟩ hinv (by decide) (by decide)
+
+end Examples
+
+#print axioms TM.C10.changes_announced
+#print axioms TM.C10.switch_only_1049
+#print axioms TM.C10.switch_announces_everything
+#print axioms TM.C10.shadow_sync
+#print axioms TM.C10.shadow_sync_run
+#print axioms TM.C10.shadow_sync_every_step
+#print axioms TM.C10.shadow_sync_run_blank
+#print axioms TM.C10.shadow_sync_stream
+#print axioms TM.C10.shadow_sync_stream_blank
+#print axioms TM.C10.cursor_last
+#print axioms TM.C10.style_last
+#print axioms TM.C10.view_last_flag
+#print axioms TM.C10.view_last_int
+#print axioms TM.C10.view_last_str
+#print axioms TM.C10.notifications_last_stream
+#print axioms TM.C10.resize_last
+#print axioms TM.C10.no_scrollLines_emitted_partial
 
 end TM.C10
